@@ -284,6 +284,16 @@ fn judge(g: &G, printed: &Printed, via_unused: bool, with_bin: bool, salt: u8) -
         let t2 = text.clone();
         let accepted = std::panic::catch_unwind(move || obs::compile(&t2, shell).is_ok()).unwrap_or(false);
         if !accepted {
+            // "warnings never change the exit status": the statements nothing refers to can only add warnings,
+            // so a grammar that is accepted without them is accepted with them
+            let t3 = reduced_text.clone();
+            let reduced_ok = reduced_text != full_min_text && std::panic::catch_unwind(move || obs::compile(&t3, shell).is_ok()).unwrap_or(false);
+            if reduced_ok {
+                return Outcome::Fail(Failure::new(
+                    format!("the grammar is rejected for {shell}, but it is accepted once the definitions nothing refers to (which only deserve a warning) are removed"),
+                    detail(),
+                ));
+            }
             c.exclude("rejected by the pipeline (C08's business)", 1);
             continue;
         }
